@@ -10,7 +10,7 @@ from streams.repair import parse_wb
 
 NO_MODEL = True
 HEADER = 3
-REQUIRED_SHAPES = ["backup_copy_checked", "put_on_owner", "put_elsewhere"]
+REQUIRED_SHAPES = ["puts_back_to_back", "backup_copy_checked", "put_on_owner", "put_elsewhere"]
 
 
 class Oracle:
@@ -80,4 +80,15 @@ class Gen:
             m = owners[k] if r.random() < 0.6 else r.randrange(n)
             val = bytes([65 + i % 20]) * r.choice([64, 4096, 65536])
             yield "c.put %s %d dm %s %s" % (path, m, k, hx(val))
+            burst = []
+            if r.random() < 0.4:
+                # ... and further Puts right behind it (other keys, other bytes, often through the same member), before the backup
+                # writes of the first one have happened: whatever the member re-uses between two Puts is re-used here
+                for j, k2 in enumerate(r.sample([x for x in keys if x != k], r.choice([1, 2, 3]))):
+                    val2 = bytes([97 + (i + j) % 20]) * r.choice([64, 64, 4096])
+                    yield "c.put %s %d dm %s %s" % (r.choice([path, "emb"]), m if r.random() < 0.7 else r.randrange(n), k2, hx(val2))
+                    burst.append(k2)
+                orc.hit("puts_back_to_back")
             yield "wb.wait dm %s" % k
+            for k2 in burst:
+                yield "wb.wait dm %s" % k2
